@@ -133,86 +133,101 @@ class Query:
         self.name, self.enc, self.asserts, self.fast_z3, self.expect = name, enc, asserts, fast_z3, expect
         self.answers = {}
 
-    def text(self):
+    def text(self, dialect="lemma"):
         lines = []
         for a in self.asserts:
             if a is True:
                 continue
             lines.append("(assert %s)" % smt.lit(a))
         lines.append("(check-sat)")
-        return self.enc.S.render(lines)
+        return self.enc.S.render(lines, dialect=dialect)
 
 
 # cvc5 configurations raced on every query (all are the same solver; measured in README.md: the default
 # configuration needs 20 s .. 13 min on the round-trip query depending on incidental options, `--no-arith-brab`
-# 11..21 s). The first definite answer wins, the others are killed / never started.
+# 11..28 s). The first definite answer wins, the others are killed / never started.
 CVC5_PORTFOLIO = [("cvc5[no-arith-brab]", ["--no-arith-brab"]), ("cvc5[default]", []), ("cvc5[use-soi]", ["--use-soi"])]
+# z3 re-decides a query either in the same rendering ("lemma": fresh q, r + division lemma) or with SMT-LIB div / mod
+# ("divmod"); which one finishes differs per query and per z3 version, so the thorough tier races all four.
+Z3_QUICK = [("z3[lemma]", "z3", "lemma")]
+Z3_THOROUGH = [("z3-new[divmod]", "z3-new", "divmod"), ("z3[lemma]", "z3", "lemma"),
+               ("z3-new[lemma]", "z3-new", "lemma"), ("z3[divmod]", "z3", "divmod")]
 
 
-def run_queries(queries, workdir, tier, jobs=4, cvc5_cap=120, z3_cap_quick=60, thorough_cap=900, z3_cap_thorough=600, log=None):
+class _Race:
+    """Variants of one solver family on one query: first definite answer wins."""
+
+    def __init__(self):
+        self.procs, self.tried, self.decided, self.answer = [], [], False, None
+
+
+def run_queries(queries, workdir, tier, jobs=4, cvc5_cap=120, z3_cap_quick=60, thorough_cap=900, z3_cap_thorough=900, log=None):
     """Decide every query with cvc5 (portfolio); cross-check with z3 where asked (quick) or everywhere (thorough).
-    Fills q.answers["cvc5"] and q.answers[<z3 name>]."""
+    Fills q.answers["cvc5"] and (if attempted) q.answers["z3"]."""
     import threading
     os.makedirs(workdir, exist_ok=True)
     lock = threading.Lock()
     cap = cvc5_cap if tier == "quick" else thorough_cap
-    stages = [[] for _ in range(len(CVC5_PORTFOLIO) + 1)]
+    n_stage = max(len(CVC5_PORTFOLIO), len(Z3_THOROUGH)) + 1
+    stages = [[] for _ in range(n_stage + 1)]
     for q in queries:
-        path = os.path.join(workdir, re.sub(r"[^A-Za-z0-9_.-]", "_", q.name) + ".smt2")
-        with open(path, "w") as f:
-            f.write(q.text())
-        q.path = path
-        q.procs = []
-        q.tried = []
-        q.decided = False
+        base = os.path.join(workdir, re.sub(r"[^A-Za-z0-9_.-]", "_", q.name))
+        q.paths = {"lemma": base + ".smt2", "divmod": base + ".divmod.smt2"}
+        for d, pth in q.paths.items():
+            with open(pth, "w") as f:
+                f.write(q.text(dialect=d))
+        q.path = q.paths["lemma"]
+        q.race = {"cvc5": _Race(), "z3": _Race()}
         for i, (label, args) in enumerate(CVC5_PORTFOLIO):
-            stages[i if i == 0 else i + 1].append((q, "cvc5", label, args, cap))
+            stages[0 if i == 0 else i + 1].append((q, "cvc5", label, "cvc5", args, "lemma", cap))
         if tier == "quick":
-            if q.fast_z3 and smt.have("z3"):
-                stages[1].append((q, "z3", "z3", [], z3_cap_quick))
+            zs = Z3_QUICK if q.fast_z3 else []
+            zcap = z3_cap_quick
         else:
-            for z in ("z3", "z3-new"):
-                if smt.have(z):
-                    stages[1].append((q, z, z, [], z3_cap_thorough))
+            zs, zcap = Z3_THOROUGH, z3_cap_thorough
+        for i, (label, solver, dialect) in enumerate(zs):
+            if smt.have(solver):
+                stages[1 if i == 0 else i + 1].append((q, "z3", label, solver, [], dialect, zcap))
     tasks = []
     for st in stages:
         st.sort(key=lambda t: -os.path.getsize(t[0].path))
         tasks += st
 
     def work(t):
-        q, solver, label, args, tcap = t
-        if solver == "cvc5":
-            with lock:
-                if q.decided:
-                    return
-        a = smt.run_solver(solver, q.path, tcap, extra_args=args, label=label,
-                           on_start=(lambda p: q.procs.append(p)) if solver == "cvc5" else None)
-        if solver != "cvc5":
-            q.answers[solver] = a
-        else:
-            with lock:
-                if a.status == "killed":
-                    return
-                q.tried.append(a)
-                if a.status in ("sat", "unsat") and not q.decided:
-                    q.decided = True
-                    q.answers["cvc5"] = a
-                    for p in q.procs:
-                        if p.poll() is None:
-                            smt.kill_proc(p)
+        q, fam, label, solver, args, dialect, tcap = t
+        race = q.race[fam]
+        a = smt.run_solver(solver, q.paths[dialect], tcap, extra_args=args, label=label,
+                           on_start=lambda p: race.procs.append(p), skip_if=lambda: race.decided)
+        with lock:
+            if a.status == "killed":
+                return
+            race.tried.append(a)
+            if a.status in ("sat", "unsat") and not race.decided:
+                race.decided = True
+                race.answer = a
+                for p in race.procs:
+                    if p.poll() is None:
+                        smt.kill_proc(p)
         if log:
-            log("    %-38s %-20s %-8s %6.1fs" % (q.name, label, a.status, a.wall))
+            log("    %-40s %-20s %-8s %6.1fs" % (q.name, label, a.status, a.wall))
 
     with concurrent.futures.ThreadPoolExecutor(max_workers=max(1, jobs)) as pool:
         list(pool.map(work, tasks))
+    order = {"error": 0, "unknown": 1, "timeout": 2}
     for q in queries:
-        if "cvc5" not in q.answers and q.tried:
-            # no configuration gave a definite answer: error dominates, then unknown, then timeout
-            order = {"error": 0, "unknown": 1, "timeout": 2}
-            q.answers["cvc5"] = sorted(q.tried, key=lambda a: order.get(a.status, 3))[0]
-        elif any(a.status == "error" for a in q.tried):
-            q.answers["cvc5"] = [a for a in q.tried if a.status == "error"][0]
-        q.cvc5_wall = sum(a.wall for a in q.tried)
+        for fam in ("cvc5", "z3"):
+            race = q.race[fam]
+            if not race.tried:
+                continue
+            errs = [a for a in race.tried if a.status == "error"]
+            if errs:
+                q.answers[fam] = errs[0]        # an "(error" line anywhere is inconclusive
+            elif race.answer is not None:
+                q.answers[fam] = race.answer
+            else:
+                q.answers[fam] = sorted(race.tried, key=lambda a: order.get(a.status, 3))[0]
+        q.cvc5_wall = sum(a.wall for a in q.race["cvc5"].tried)
+        q.z3_wall = sum(a.wall for a in q.race["z3"].tried)
 
 
 def verdict(queries):
@@ -221,9 +236,10 @@ def verdict(queries):
     status, reasons, sat_q = "holds", [], None
     cross = []
     secs = 0.0
+    zused = set()
     for q in queries:
         a = q.answers.get("cvc5")
-        secs += getattr(q, "cvc5_wall", 0.0) + sum(x.wall for n, x in q.answers.items() if n != "cvc5")
+        secs += getattr(q, "cvc5_wall", 0.0) + getattr(q, "z3_wall", 0.0)
         if a is None:
             status = "inconclusive"
             reasons.append("%s: not run" % q.name)
@@ -234,98 +250,97 @@ def verdict(queries):
         elif a.status != "unsat":
             status = "inconclusive"
             reasons.append("%s: cvc5 %s %s" % (q.name, a.status, a.raw.strip()[-200:] if a.status == "error" else ""))
-        zs = [(n, x) for n, x in q.answers.items() if n != "cvc5"]
-        if not zs:
-            cross.append("skipped(quick tier)")
+        z = q.answers.get("z3")
+        if z is None:
+            cross.append("not attempted")
+        elif z.status == "error":
+            status = "inconclusive"
+            reasons.append("%s: %s error %s" % (q.name, z.solver, z.raw.strip()[-160:]))
+            cross.append("error")
+        elif z.status not in ("sat", "unsat"):
+            cross.append("skipped(timeout)")
+        elif z.status == a.status:
+            cross.append("agree")
+            zused.add(z.solver)
         else:
-            definite = [(n, x) for n, x in zs if x.status in ("sat", "unsat")]
-            if any(x.status == "error" for _, x in zs):
-                status = "inconclusive"
-                reasons.append("%s: %s error" % (q.name, [n for n, x in zs if x.status == "error"][0]))
-                cross.append("error")
-            elif not definite:
-                cross.append("skipped(timeout)")
-            elif all(x.status == a.status for _, x in definite):
-                cross.append("agree")
-            else:
-                cross.append("DISAGREE")
-                status = "inconclusive"
-                reasons.append("%s: cvc5 says %s, %s" % (q.name, a.status, ", ".join("%s says %s" % (n, x.status) for n, x in definite)))
+            cross.append("DISAGREE")
+            status = "inconclusive"
+            reasons.append("%s: cvc5 says %s, %s says %s" % (q.name, a.status, z.solver, z.status))
     if sat_q is not None and status == "holds":
         status = "sat"
     elif sat_q is not None:
         status = "inconclusive"
+    n = len(cross)
     if any(c == "DISAGREE" for c in cross):
         ctext = "DISAGREE"
     elif cross and all(c == "agree" for c in cross):
         ctext = "agree"
     elif any(c == "agree" for c in cross):
-        ctext = "agree on %d/%d queries, rest %s" % (sum(1 for c in cross if c == "agree"), len(cross),
-                                                     sorted(set(c for c in cross if c != "agree"))[0])
+        rest = sorted(set(c for c in cross if c != "agree"))
+        ctext = "agree on %d/%d queries, rest %s" % (sum(1 for c in cross if c == "agree"), n, "/".join(rest))
+    elif cross and all(c == "not attempted" for c in cross):
+        ctext = "skipped(quick tier: z3 is not known to be fast on this query)"
     elif cross:
-        ctext = sorted(set(cross))[0]
+        ctext = "/".join(sorted(set(cross)))
     else:
         ctext = "skipped"
-    zname = smt.solver_version("z3") if smt.have("z3") else "z3"
+    tried = set()
+    for q in queries:
+        for a in getattr(q, "race", {}).get("z3", _Race()).tried:
+            tried.add("z3-new" if a.solver.startswith("z3-new") else "z3")
+    zname = "z3 " + "+".join(sorted(set(smt.solver_version(x).split()[1] for x in (tried or {"z3"}) if smt.have(x)))) 
     return status, "%s: %s" % (zname, ctext), round(secs, 1), sat_q, reasons
 
 
 # ---------------------------------------------------------------- translator validation
 
-def validate(enc, vectors, workdir, timeout=120):
+def validate(enc, vectors, workdir, timeout=120, jobs=4):
     """vectors: [(label, {input label: int}, expected)], expected = {"panic": bool, "out": {label: int|bool}}
     (outputs are compared only when the native run did not panic and `expected['out']` has the label).
-    One incremental cvc5 run, inputs pinned per vector, (get-value) on ret guard / panic flag / outputs.
+    One cvc5 run per vector (inputs pinned, outputs read from the dumped model), `jobs` at a time.
     -> (ok, n_checked, mismatches[list of str], seconds)"""
     S = enc.S
     os.makedirs(workdir, exist_ok=True)
     pan = [p.guard for p in enc.ex.panics]
     any_panic = smt.b_or(*pan) if pan else False
-    lines = []
-    lines.append("(define-fun v_any_panic () Bool %s)" % smt.lit(any_panic))
-    lines.append("(define-fun v_ret () Bool %s)" % smt.lit(enc.ret_guard))
-    outs = [(lab, t) for lab, t in enc.outputs]
-    for lab, vals, exp in vectors:
-        lines.append("(push 1)")
+    outs = [("__panic", any_panic, "Bool"), ("__ret", enc.ret_guard, "Bool")]
+    for lab, t in enc.outputs:
+        outs.append((lab, t, "Bool" if isinstance(t, bool) or (isinstance(t, str) and _is_bool_term(S, t)) else "Int"))
+    common = []
+    for k, (lab, t, sort) in enumerate(outs):
+        common.append("(declare-fun vo_%d () %s)" % (k, sort))
+        common.append("(assert (= vo_%d %s))" % (k, smt.lit(t)))
+    t0 = time.time()
+
+    def one(iv):
+        idx, (lab, vals, exp) = iv
+        lines = list(common)
         for ilab, term in enc.inputs:
             if ilab not in vals:
-                raise EngineError("validation vector %s lacks input %s" % (lab, ilab))
+                return lab, None, "validation vector lacks input %s" % ilab
             lines.append("(assert (= %s %s))" % (term, smt.lit(vals[ilab])))
         lines.append("(check-sat)")
-        lines.append("(get-value (v_any_panic v_ret %s))" % " ".join(smt.lit(t) for _, t in outs))
-        lines.append("(pop 1)")
-    path = os.path.join(workdir, "validate_%s.smt2" % enc.name)
-    with open(path, "w") as f:
-        f.write(S.render(lines))
-    t0 = time.time()
-    try:
-        r = subprocess.run([smt.SOLVERS["cvc5"]["bin"], "--lang", "smt2", "--incremental", "--produce-models", "--tlimit=%d" % (timeout * 1000), path],
-                           capture_output=True, text=True, timeout=timeout + 20)
-        out = r.stdout + r.stderr
-    except subprocess.TimeoutExpired:
-        return False, 0, ["validation run timed out"], time.time() - t0
-    secs = time.time() - t0
-    if "(error" in out:
-        return False, 0, ["solver error during validation: " + out[out.index("(error"):][:300]], secs
-    try:
-        items = smt.parse_sexprs(out)
-    except Exception as e:
-        return False, 0, ["unparsable validation output: %s" % e], secs
+        path = os.path.join(workdir, "validate_%s_%d.smt2" % (enc.name, idx))
+        with open(path, "w") as f:
+            f.write(S.render(lines))
+        a = smt.run_solver("cvc5", path, timeout, extra_args=["--no-arith-brab"])
+        if a.status != "sat":
+            return lab, None, "pinned inputs are %s in the encoding %s" % (a.status, a.raw.strip()[-160:] if a.status == "error" else "")
+        return lab, a.model, None
+
     mism, n = [], 0
-    pos = 0
-    for lab, vals, exp in vectors:
-        if pos + 1 >= len(items) + 0 and pos >= len(items):
-            mism.append("%s: no answer" % lab)
-            break
-        if items[pos] != "sat":
-            mism.append("%s: pinned inputs are %s in the encoding" % (lab, items[pos]))
-            pos += 1
+    with concurrent.futures.ThreadPoolExecutor(max_workers=max(1, jobs)) as pool:
+        results = list(pool.map(one, enumerate(vectors)))
+    for (lab, vals, exp), (_, model, err) in zip(vectors, results):
+        if err:
+            mism.append("%s: %s" % (lab, err))
             continue
-        vals_out = items[pos + 1]
-        pos += 2
-        got = [smt._eval_const(v[1]) for v in vals_out]
-        g_panic, g_ret = got[0], got[1]
+        got = [model.get("vo_%d" % k) for k in range(len(outs))]
+        if any(g is None for g in got):
+            mism.append("%s: model lacks an output value" % lab)
+            continue
         n += 1
+        g_panic, g_ret = got[0], got[1]
         if bool(exp["panic"]) != bool(g_panic):
             mism.append("%s: native %s, encoding %s" % (lab, "panics" if exp["panic"] else "returns",
                                                          "panics" if g_panic else "returns"))
@@ -335,7 +350,21 @@ def validate(enc, vectors, workdir, timeout=120):
         if g_ret is not True:
             mism.append("%s: encoding does not reach the return for these inputs" % lab)
             continue
-        for (olab, _), gv in zip(outs, got[2:]):
+        for (olab, _, _), gv in zip(outs[2:], got[2:]):
             if olab in exp["out"] and exp["out"][olab] != gv:
                 mism.append("%s: output %s native=%s encoding=%s" % (lab, olab, exp["out"][olab], gv))
-    return (not mism and n == len(vectors)), n, mism, secs
+    return (not mism and n == len(vectors)), n, mism, time.time() - t0
+
+
+def _is_bool_term(S, t):
+    """Sort of a named term: looked up in the script's declarations / definitions."""
+    if t in ("true", "false"):
+        return True
+    if t.startswith("("):
+        return t.startswith(("(not ", "(and ", "(or ", "(= ", "(<", "(>", "(=> "))
+    for ln in S.lines:
+        if isinstance(ln, tuple):
+            continue
+        if ln.startswith("(define-fun %s () " % t) or ln.startswith("(declare-fun %s () " % t):
+            return ln.split(" () ", 1)[1].startswith("Bool")
+    return False
